@@ -7,8 +7,8 @@ open SonicSpec SonicSpec.Go SonicSpec.Json SonicSpec.Bind SonicSpec.Stream
 
 theorem sub_ptrBase : âˆ€ (T : GoType), Sub T = true â†’ Sub (ptrBase T) = true âˆ§ notPtr (ptrBase T) = true
   | .ptr t, h => by simp only [Sub] at h; simp only [ptrBase]; exact sub_ptrBase t h
-  | .bool, h | .int _, h | .uint _, h | .str, h | .f32, h | .f64, h | .sl _, h | .arr _ _, h | .st _, h => by simp [ptrBase, notPtr, h]
-  | .num, h | .bytes, h | .raw, h | .any, h | .map _ _, h | .lib _, h => by simp [Sub] at h
+  | .bool, h | .int _, h | .uint _, h | .str, h | .f32, h | .f64, h | .any, h | .sl _, h | .arr _ _, h | .st _, h => by simp [ptrBase, notPtr, h]
+  | .num, h | .bytes, h | .raw, h | .map _ _, h | .lib _, h => by simp [Sub] at h
 
 /-- the result of decoding into `*t` is the pointer to the result of decoding into `t` -/
 def wrapRes (res : Res GoVal) : Res GoVal :=
@@ -35,6 +35,11 @@ theorem decodeVal_ptr (o : DecOpts) (n : Nat) (t : GoType) (hs : Sub t = true) (
   | str => simp only; repeat' (first | rfl | split)
   | f32 => simp only; repeat' (first | rfl | split)
   | f64 => simp only; repeat' (first | rfl | split)
+  | any =>
+    simp only [decodeAny]
+    cases parseR (n + 1) s with
+    | none => rfl
+    | some p => rfl
   | sl t' => simp only; repeat' (first | rfl | split)
   | arr k t' => simp only; repeat' (first | rfl | split)
   | st fs => simp only; repeat' (first | rfl | split)
@@ -136,6 +141,16 @@ theorem dv_f32 (o : DecOpts) (n : Nat) (s : Bytes) (cur : GoVal) (hn : isNullLit
   rw [decodeVal]; simp only [hn, ptrBase, peel, wrapPtr]
   repeat' (first | rfl | split)
 
+theorem dv_any (o : DecOpts) (n : Nat) (s : Bytes) (cur : GoVal) (hn : isNullLit s = none) :
+    decodeVal o (n + 1) .any s cur =
+      match parseR (n + 1) s with
+      | some (j, r) => .ok ((toAny o j).1, (toAny o j).2, r)
+      | none => .error .syntax := by
+  rw [decodeVal]; simp only [hn, ptrBase, peel, wrapPtr, decodeAny]
+  cases parseR (n + 1) s with
+  | none => rfl
+  | some p => rfl
+
 theorem dv_str (o : DecOpts) (n : Nat) (s : Bytes) (cur : GoVal) (hn : isNullLit s = none) :
     decodeVal o (n + 1) .str s cur =
       match tok s with
@@ -228,6 +243,7 @@ theorem decodeVal_nil (o : DecOpts) (n : Nat) : âˆ€ (T : GoType), Sub T = true â
       | str => rw [dv_str o n [] cur rfl]; simp [tok, skipMismatch, skipVal_nil]
       | f32 => rw [dv_f32 o n [] cur rfl]; simp [tok, scanNumber]
       | f64 => rw [dv_f64 o n [] cur rfl]; simp [tok, scanNumber]
+      | any => rw [dv_any o n [] cur rfl]; simp [parseR, scanNumber]
       | sl t =>
         simp only [Sub, Bool.and_eq_true] at hs
         rw [dv_sl o n t hs.1 [] cur rfl]; simp [tok, skipMismatch, skipVal_nil]
